@@ -5,6 +5,7 @@ package main
 // C06 harness, broker side: CheckProxyRelayPattern and the rejection path of IPC.ProxyPolls.
 
 import (
+	"encoding/json"
 	"fmt"
 	"math/rand"
 	"strings"
@@ -117,8 +118,13 @@ func TestVerifC06Broker(t *testing.T) {
 			if nonSupported {
 				// a legacy proxy sends no AcceptedRelayPattern member at all
 				body = []byte(fmt.Sprintf(`{"Sid":"sid%d","Version":"1.2","Type":"standalone","NAT":"unrestricted","Clients":0}`, i))
-			} else {
+			} else if i%20 == 0 {
 				body, err = messages.EncodeProxyPollRequestWithRelayPrefix(fmt.Sprintf("sid%d", i), "standalone", "unrestricted", 0, pattern)
+			} else {
+				// a proxy that states its pattern is judged by it whatever 1.x version it announces
+				ver := []string{"1.0", "1.1", "1.2", "1.3", "1", "1.10", "1.x"}[rng.Intn(7)]
+				pj, _ := json.Marshal(pattern)
+				body = []byte(fmt.Sprintf(`{"Sid":"sid%d","Version":%q,"Type":"standalone","NAT":"unrestricted","Clients":0,"AcceptedRelayPattern":%s}`, i, ver, pj))
 			}
 			if err != nil {
 				t.Fatal(err)
